@@ -1355,7 +1355,10 @@ def _range_merging(program, rep, mn):
     if form == "obj":
         okf = okf and pl(fa[1]) == pl(S0[0])
     # nothing skips a core
-    no_skip = not any(isinstance(x, (ast.Break, ast.Continue, ast.Return))
+    # (a ``continue`` ends the handling of one core - what was done for it
+    # is what the three cases above compare; only leaving the loop skips
+    # cores)
+    no_skip = not any(isinstance(x, (ast.Break, ast.Return))
                       for x in ast.walk(lp))
     # before the first core there is no open range
     init = all(alt == ("const", None) for v in svars
